@@ -1454,7 +1454,7 @@ func AtomicCall(in ssa.Instruction) (op string, addr ssa.Value, args []ssa.Value
 		rest := name[i+2:]
 		for _, o := range ops {
 			if rest == o && len(cc.Args) >= 1 {
-				return o, cc.Args[0], cc.Args[1:], true
+				return o, cc.Args[0], atomicBoolArgs(name, cc.Args[1:]), true // atomic.Bool: true/false as 1/0 (v_atomic_bool.go)
 			}
 		}
 	}
